@@ -653,7 +653,7 @@ def run(tier: str) -> int:
     ck.prove(extractors=["FtConsts"])
     drv = LeanDriver("C18")
     replay_corpus(ck)
-    n = 220 if tier == "quick" else 3000
+    n = 200 if tier == "quick" else 3000
     explore(ck, drv, rng("c18"), n)
     if tier == "thorough":
         ck.leanchecker()
